@@ -1070,7 +1070,8 @@ impl<'a> Gen<'a> {
             for _ in 0..*self.r.pick(&[0usize, 1, 2, 2, 3, 4]) {
                 let n = format!("insp{}", self.insp_counter);
                 self.insp_counter += 1;
-                let action = *self.r.pick(&["", "echo new > created.txt;", "echo more >> foo;", "rm -f foo;"]);
+                // (the last one: a directory that is there under two names - its own and a symbolic link to it)
+                let action = *self.r.pick(&["", "echo new > created.txt;", "echo more >> foo;", "rm -f foo;", "mkdir -p build-7; echo built > build-7/out.txt; ln -sfn build-7 latest;"]);
                 // (an inspection may rely on what the one listed before it left behind: its link file)
                 let mut mats = vec![ArtifactRule::Allow(vp("*"))];
                 if let Some(prev) = inspect.last().map(|p: &SInsp| p.name.clone()) {
